@@ -191,6 +191,9 @@ def finish(ctx: Ctx, level: str = "model_checking") -> int:
         "wall_s": round(wall, 2),
         "violations": len({v.signature for v in unlisted}),
     }
+    if REPO.resolve() != Path("/repo"):
+        # a copy of the repository was checked (seeded-change runs, sweeps): the evidence files describe /repo only
+        return rc
     (VERIF / "evidence").mkdir(exist_ok=True)
     if ctx.prop.startswith("X"):
         # extension checks (beyond the listed properties) keep their evidence apart from the properties' files
